@@ -41,6 +41,11 @@ DEFAULTS = {"DE": ("nethome+de@mailinator.com", "password1"), "KR": ("nethome+se
             "US": ("nethome+us@mailinator.com", "password1")}
 SPECIAL = "+&=% @!#$*()-_.~/?:;,'"
 FAULTS = ["timeout", "connect-timeout", "connect", ["status", 500], ["status", 404], ["api", 3004]]
+# further kinds, used in the random fault scripts (the exhaustive scripts keep the six above)
+MORE_FAULTS = ["write-timeout", "pool-timeout", "read-error", "write-error", "close-error", "proxy-error", "remote-protocol", "local-protocol",
+               "unsupported-protocol", "decoding", "too-many-redirects", ["api", 3106], ["api", 3101], ["api", 3102], ["api", 9999], ["api", 1],
+               ["status", 301], ["status", 401], ["status", 503]]
+TIMEOUT_FAULTS = ("timeout", "connect-timeout", "write-timeout", "pool-timeout")
 
 
 def _cred(rng):
@@ -101,7 +106,7 @@ def _generate(ctx, rng):
     for j in range(1200 if quick else 60000):
         c = _tok_case(rng, pos=rng.choice(["absent", "first", "middle", "last", "only"]), size=rng.randint(1, 9))
         if rng.random() < 0.3:
-            c["stage_faults"] = {str(rng.randrange(3)): [rng.choice(FAULTS + [None]) for _ in range(rng.randint(1, 3))]}
+            c["stage_faults"] = {str(rng.randrange(3)): [rng.choice(FAULTS + MORE_FAULTS + [None]) for _ in range(rng.randint(1, 3))]}
         yield ("rnd", j), c
     # several lookups in flight on ONE cloud object, the server listing every registered entry in each answer
     for j in range(60 if quick else 3000):
@@ -240,7 +245,7 @@ def run_case(ctx, case):
             if f is None:
                 ok = True
                 break
-            if f in ("timeout", "connect-timeout"):
+            if f in TIMEOUT_FAULTS:
                 continue
             break
         if not ok:
@@ -267,7 +272,7 @@ def run_case(ctx, case):
             exp_attempts = 0
             for f in script[:3]:
                 exp_attempts += 1
-                if f not in ("timeout", "connect-timeout"):
+                if f not in TIMEOUT_FAULTS:
                     break
             if not case.get("wrong_password") and per_stage[expect_fail_stage] != exp_attempts:
                 bad = True
